@@ -124,7 +124,8 @@ def isPrefix [BEq α] : List α → List α → Bool
 def monitorQuery (seq : Nat) (impl : String) (acks : Option (List String)) (resps : Option (List (String × String)))
     (maxAcks maxResps : Nat) : Option (String × String) :=
   let items := if impl == "-" then [] else impl.splitOn "+"
-  if items.contains "AFTER-RETURN" then some ("query-after-done", s!"records were sent after the stream returned: {impl}")
+  if impl.startsWith "TIMEOUT" then some ("query-done", s!"the query stream never completed: {impl}")
+  else if items.contains "AFTER-RETURN" then some ("query-after-done", s!"records were sent after the stream returned: {impl}")
   else match items.mapM parseRec? with
     | none => some ("malformed", impl)
     | some rs =>
